@@ -182,26 +182,39 @@ Theorem C13_contains_int_set : forall s : list (itv xq), Forall WFx s ->
 Proof. exact xs_contains_int_spec. Qed.
 Print Assumptions C13_contains_int_set.
 
-(* lp_feasibility_set_count_int / _is_point_int: PARTIAL.  Proved: the result is the saturating sum of the exact
-   per-interval counts (C13_count_int), resp. the test "that sum is 1".  Not proved: that for a normal-form set
-   (pairwise disjoint intervals) this sum is the cardinality of the set of integers in the set. *)
-Theorem C13_count_int_set_partial : forall s : list (itv xq), Forall WFx s ->
+(* lp_feasibility_set_count_int: the running sum saturates at LONG_MAX ... *)
+Theorem C13_count_int_set_sum : forall s : list (itv xq), Forall WFx s ->
   (0 <= xs_count_int s <= LONG_MAX)%Z /\
   ((xs_count_int s < LONG_MAX)%Z -> xs_count_int s = sum_counts s) /\
   (xs_count_int s = LONG_MAX -> (LONG_MAX <= sum_counts s)%Z).
 Proof. exact xs_count_int_sum. Qed.
-Print Assumptions C13_count_int_set_partial.
-Definition C13_count_int_set_full_statement : Prop :=
-  forall s : list (itv xq), NF xq_cmp s -> Forall WFx s -> (xs_count_int s < LONG_MAX)%Z ->
-  exists l : list Z, NoDup l /\ (forall z, In z l <-> int_mem_set z s) /\ Z.of_nat (length l) = xs_count_int s.
+Print Assumptions C13_count_int_set_sum.
 
-Theorem C13_is_point_int_partial : forall s : list (itv xq), Forall WFx s ->
-  (xs_is_point_int s = true <-> sum_counts s = 1%Z).
-Proof. exact xs_is_point_int_sum. Qed.
-Print Assumptions C13_is_point_int_partial.
-Definition C13_is_point_int_full_statement : Prop :=
-  forall s : list (itv xq), NF xq_cmp s -> Forall WFx s ->
+(* ... and, the intervals of a normal-form set being pairwise disjoint, a result below LONG_MAX is the CARDINALITY of
+   the set of integers that belong to the set: there is a duplicate-free list of exactly the integer members, of
+   that length *)
+Theorem C13_count_int_set : forall s : list (itv xq), NF xq_cmp s -> Forall WFx s -> (xs_count_int s < LONG_MAX)%Z ->
+  exists l : list Z, NoDup l /\ (forall z, In z l <-> int_mem_set z s) /\ Z.of_nat (length l) = xs_count_int s.
+Proof. exact xs_count_int_card. Qed.
+Print Assumptions C13_count_int_set.
+
+(* LONG_MAX: at least LONG_MAX distinct integers belong to the set *)
+Theorem C13_count_int_set_saturated : forall s : list (itv xq), NF xq_cmp s -> Forall WFx s -> xs_count_int s = LONG_MAX ->
+  exists l : list Z, NoDup l /\ (forall z, In z l -> int_mem_set z s) /\ Z.of_nat (length l) = LONG_MAX.
+Proof. exact xs_count_int_saturated. Qed.
+Print Assumptions C13_count_int_set_saturated.
+
+(* an interval with an infinite end makes the answer LONG_MAX *)
+Theorem C13_count_int_set_infinite_end : forall s : list (itv xq), Forall WFx s ->
+  (exists X, In X s /\ (ia X = XQMinf \/ ib X = XQPinf)) -> xs_count_int s = LONG_MAX.
+Proof. exact xs_count_int_infinite. Qed.
+Print Assumptions C13_count_int_set_infinite_end.
+
+(* lp_feasibility_set_is_point_int: exactly one integer belongs to the set *)
+Theorem C13_is_point_int : forall s : list (itv xq), NF xq_cmp s -> Forall WFx s ->
   (xs_is_point_int s = true <-> exists z, int_mem_set z s /\ forall z', int_mem_set z' s -> z' = z).
+Proof. exact xs_is_point_int_card. Qed.
+Print Assumptions C13_is_point_int.
 
 (* the integer queries see an end point only through (is_infinity, is_integer, floor, ceiling): on rational end
    points they are the [epi] programs that the model driver also runs on ALGEBRAIC end points, with that view
@@ -214,6 +227,20 @@ Theorem C13_int_queries_by_floor_ceiling : forall s : list (itv xq),
   xs_is_point_int s = es_is_point_int (map epi_itv s).
 Proof. exact (fun s => conj itv_contains_int_epi (conj itv_count_int_epi (xs_int_queries_epi s))). Qed.
 Print Assumptions C13_int_queries_by_floor_ceiling.
+
+(* the [epi] programs answer for the integers that the views admit (ei_mem: an integer-only reading of the views),
+   whatever kind of number the end points are, provided the views are consistent (view_wf) *)
+Theorem C13_contains_int_view : forall X : itv epi, view_wf X ->
+  (ei_contains_int X = true <-> exists z : Z, ei_mem z X).
+Proof. exact ei_contains_int_core. Qed.
+Print Assumptions C13_contains_int_view.
+
+Theorem C13_count_int_view : forall X : itv epi, view_wf X ->
+  (0 <= ei_count_int X <= LONG_MAX)%Z /\
+  ((ei_count_int X < LONG_MAX)%Z -> exists lo : Z, forall z : Z, ei_mem z X <-> (lo <= z < lo + ei_count_int X)%Z) /\
+  (ei_count_int X = LONG_MAX -> exists lo : Z, forall z : Z, (lo <= z < lo + LONG_MAX)%Z -> ei_mem z X).
+Proof. exact ei_count_int_core. Qed.
+Print Assumptions C13_count_int_view.
 
 (* lp_feasibility_set_pick_value / lp_interval_pick_value are not modelled (any member will do): the
    implementation's value is CHECKED by xs_pick_ok, and the checker accepts exactly the members of the set that
@@ -321,3 +348,39 @@ Proof. vm_compute. auto. Qed.
    values strictly between two pool values a rank of their own) *)
 Example ex_transfer_premise : forall x y : Z, Z.compare (2 * x) (2 * y) = Z.compare x y.
 Proof. intros x y. destruct x, y; reflexivity. Qed.
+
+(* ---- 9. REAL end points (any real closed field R; mathcomp).  An end is -inf, +inf or a real v; a view
+   (is_integer, floor, ceiling) of v is correct (view_of) when is_integer <-> v is an integer, floor <= v < floor+1,
+   ceiling-1 < v <= ceiling - which is what the base theorems Base_rn_is_integer / Base_rn_floor / Base_rn_ceiling prove
+   of the reference computations the model driver uses for algebraic end points (C13_reference_view_is_correct).
+   Then lp_interval_contains_int / _count_int, as run on the views, answer for the integers z with
+   a (< | <=) z (< | <=) b in R. *)
+Set Warnings "-notation-overridden,-ambiguous-paths".
+From mathcomp Require Import all_ssreflect all_algebra all_real_closed.
+Set Warnings "notation-overridden,ambiguous-paths".
+From LP Require Import RefAlg RefAlgSpec FeasSetReal.
+
+Theorem C13_reference_view_is_correct : forall (R : rcfType) (fuel : nat) (x : rnum) (v : R) (b : bool) (fl ce : Z),
+  rn_denotes x v -> rn_is_integer fuel x = Some b -> rn_floor fuel x = Some fl -> rn_ceiling fuel x = Some ce ->
+  view_of (EPFin b fl ce) (RFin v).
+Proof. exact: ref_view_of. Qed.
+Print Assumptions C13_reference_view_is_correct.
+
+Theorem C13_contains_int_real : forall (R : rcfType) (X : itv epi) (a b : rend R), real_ends_ok X a b ->
+  (ei_contains_int X = true <-> exists z : Z, rmem z a (ia_open X) b (ib_open X)).
+Proof. exact: real_contains_int. Qed.
+Print Assumptions C13_contains_int_real.
+
+Theorem C13_count_int_real : forall (R : rcfType) (X : itv epi) (a b : rend R), real_ends_ok X a b ->
+  [/\ Z.le Z0 (ei_count_int X) /\ Z.le (ei_count_int X) LONG_MAX,
+      (Z.lt (ei_count_int X) LONG_MAX -> exists lo : Z, forall z : Z,
+         rmem z a (ia_open X) b (ib_open X) <-> Z.le lo z /\ Z.lt z (Z.add lo (ei_count_int X)))
+    & (ei_count_int X = LONG_MAX -> exists lo : Z, forall z : Z,
+         Z.le lo z /\ Z.lt z (Z.add lo LONG_MAX) -> rmem z a (ia_open X) b (ib_open X))].
+Proof. exact: real_count_int. Qed.
+Print Assumptions C13_count_int_real.
+
+(* non-vacuity: (0, 3) in every real closed field *)
+Example ex_real_ends : forall R : rcfType,
+  real_ends_ok (mkItv (EPFin true Z0 Z0) (EPFin true (Zpos 3) (Zpos 3)) true true false) (RFin (zr Z0)) (RFin (@zr R (Zpos 3))).
+Proof. exact: real_ends_example. Qed.
